@@ -382,8 +382,8 @@ structure RawOK (c : RawCell) : Prop where
 theorem parseCellBody_spec (d1 d2 : Nat) (cd0 : Bytes) (refSize : Nat) (s : Nat) (hr : refSize ≤ 4)
     (hd1lt : d1 < 256) (hd2lt : d2 < 256) :
     Spec (parseCellBody (descr d1 d2) cd0 refSize) s
-      (fun r s' => RawOK r.1 ∧ r.2.length ≤ cd0.length ∧ s' + r.2.length ≤ s + 296 + cd0.length)
-      (fun s' => s' ≤ s + 296 + cd0.length) := by
+      (fun r s' => RawOK r.1 ∧ r.2.length ≤ cd0.length ∧ s' + r.2.length ≤ s + 552 + cd0.length)
+      (fun s' => s' ≤ s + 552 + cd0.length) := by
   unfold parseCellBody
   simp only [descr]
   apply spec_bind
@@ -436,6 +436,9 @@ theorem parseCellBody_spec (d1 d2 : Nat) (cd0 : Bytes) (refSize : Nat) (s : Nat)
       apply spec_lift_ok (sliceTo_ok _ _ (by omega))
       apply spec_bind
       apply spec_makeSlice (by omega)
+      have hgrow : d2 / 2 + d2 % 2 + growBytes (d2 / 2 + d2 % 2) ≤ 256 := by unfold growBytes; split <;> omega
+      apply spec_bind
+      apply spec_alloc
       have harr : (cd.take (d2 / 2 + d2 % 2)).length = d2 / 2 + d2 % 2 := by
         rw [List.length_take]; omega
       apply spec_bind
@@ -481,8 +484,8 @@ theorem parseCellBody_spec (d1 d2 : Nat) (cd0 : Bytes) (refSize : Nat) (s : Nat)
 
 theorem parseCell_spec (cd0 : Bytes) (refSize : Nat) (s : Nat) (hr : refSize ≤ 4) :
     Spec (parseCell cd0 refSize) s
-      (fun r s' => RawOK r.1 ∧ r.2.length + 2 ≤ cd0.length ∧ s' + r.2.length ≤ s + 296 + cd0.length)
-      (fun s' => s' ≤ s + 296 + cd0.length) := by
+      (fun r s' => RawOK r.1 ∧ r.2.length + 2 ≤ cd0.length ∧ s' + r.2.length ≤ s + 552 + cd0.length)
+      (fun s' => s' ≤ s + 552 + cd0.length) := by
   unfold parseCell
   apply spec_ite
   · intro _; exact spec_fail (by omega)
@@ -508,8 +511,8 @@ theorem parseCell_spec (cd0 : Bytes) (refSize : Nat) (s : Nat) (hr : refSize ≤
 
 theorem parseCells_spec (k : Nat) (cd : Bytes) (refSize : Nat) (s : Nat) (hr : refSize ≤ 4) :
     Spec (parseCells k cd refSize) s
-      (fun cs s' => cs.length = k ∧ (∀ c ∈ cs, RawOK c) ∧ s' ≤ s + 296 * k + cd.length)
-      (fun s' => s' ≤ s + 296 * k + cd.length) := by
+      (fun cs s' => cs.length = k ∧ (∀ c ∈ cs, RawOK c) ∧ s' ≤ s + 552 * k + cd.length)
+      (fun s' => s' ≤ s + 552 * k + cd.length) := by
   induction k generalizing cd s with
   | zero =>
     unfold parseCells
@@ -682,14 +685,14 @@ theorem start_u32 (x : Nat) (h : x < 4294967296) : (toInt ((x + two64 - 1) % two
     rw [this, toInt_small _ (by unfold two63; omega)]
     omega
 
-theorem mul296 (c l : Nat) (h : 2 * c ≤ l) : 296 * c ≤ 148 * l := by
-  have := Nat.mul_le_mul_left 148 h
+theorem mul296 (c l : Nat) (h : 2 * c ≤ l) : 552 * c ≤ 276 * l := by
+  have := Nat.mul_le_mul_left 276 h
   rw [← Nat.mul_assoc] at this
   exact this
 
 theorem parseBocM_spec (boc : Bytes) (hb : boc.length < two63) :
-    Spec (parseBocM boc) 0 (fun r s' => Sound r.1 r.2 ∧ s' ≤ 189 * boc.length + 8)
-      (fun s' => s' ≤ 189 * boc.length + 8) := by
+    Spec (parseBocM boc) 0 (fun r s' => Sound r.1 r.2 ∧ s' ≤ 317 * boc.length + 8)
+      (fun s' => s' ≤ 317 * boc.length + 8) := by
   unfold parseBocM
   apply spec_bind
   apply spec_mono (parseHeader_spec boc 0 hb)
@@ -714,7 +717,7 @@ theorem parseBocM_spec (boc : Bytes) (hb : boc.length < two63) :
       clear hq
       have hsize : cs.toArray.size = h.cellCount := by simp [hlen]
       have hK' := mul296 h.cellCount boc.length (by omega)
-      generalize 296 * h.cellCount = K at hs2 hK'
+      generalize 552 * h.cellCount = K at hs2 hK'
       simp only [szPtr, szSliceHdr, szUint] at *
       rw [start_u32 _ hcc]
       apply spec_bind
@@ -758,7 +761,7 @@ theorem parseBocM_spec (boc : Bytes) (hb : boc.length < two63) :
             exact (hfw r0 hr0).2.2
     · intro s' hs
       have hK' := mul296 h.cellCount boc.length (by omega)
-      generalize 296 * h.cellCount = K at hs hK'
+      generalize 552 * h.cellCount = K at hs hK'
       simp only [szPtr, szSliceHdr, szUint] at *
       omega
   · intro s' hs; omega
